@@ -35,6 +35,10 @@ func (g *G) service(scope map[string]bool) {
 		s.ErrorResp = append(s.ErrorResp, &m.ErrorResponse{Name: e.Name, Status: rapid.SampledFrom([]int{409, 429, 502}).Draw(t, "svcerrstatus"), Level: "service"})
 		g.feat("service-level-error")
 	}
+	if g.p.Security && len(g.d.Schemes) > 0 && rapid.IntRange(0, 2).Draw(t, "svcsec") == 0 {
+		s.Security = g.requirements()
+		g.feat("service-level-security")
+	}
 	apiErrInService := false
 	if len(g.d.API.Errors) > 0 && rapid.Bool().Draw(t, "reuseapierr") {
 		// refer to the error defined at the API level: the HTTP mapping is inherited
@@ -147,8 +151,26 @@ func (g *G) method(s *m.Service, scope map[string]bool) {
 		g.feat("no-body-verb")
 	}
 
+	// security
+	if g.p.Security && len(g.d.Schemes) > 0 {
+		switch rapid.IntRange(0, 5).Draw(t, "methsec") {
+		case 0:
+			meth.NoSecurity = true
+			g.feat("no-security")
+		case 1, 2:
+			meth.Security = g.requirements()
+			g.feat("method-level-security")
+		}
+	}
+	secured := len(EffectiveSecurity(g.d, s, meth)) > 0
+	if secured && len(meth.Security) == 0 {
+		g.feat("inherited-security")
+	}
 	// payload
 	pk := rapid.IntRange(0, 11).Draw(t, "payloadkind")
+	if secured {
+		pk = 5 // credentials live in an object payload
+	}
 	switch {
 	case pk == 0:
 		// no payload
@@ -163,6 +185,9 @@ func (g *G) method(s *m.Service, scope map[string]bool) {
 		obj := g.object(2, "")
 		meth.Payload = &m.Attr{Type: obj}
 		g.mapObjectPayload(meth, hasBodyVerb)
+		if secured {
+			g.credentials(s, meth)
+		}
 	}
 
 	// routes
@@ -754,4 +779,75 @@ func isRecursiveType(d *m.Design, name string) bool {
 		return false
 	}
 	return walk(ut.Attr.Type)
+}
+
+// credentials adds the credential attributes the effective requirements need
+// to the (inline object) payload and maps them to the request.
+func (g *G) credentials(s *m.Service, meth *m.Method) {
+	t := g.t
+	h := meth.HTTP
+	obj := meth.Payload.Type
+	have := map[string]bool{}
+	for _, f := range obj.Fields {
+		have[norm(f.Name)] = true
+	}
+	authorizationTaken := false
+	for _, r := range EffectiveSecurity(g.d, s, meth) {
+		for _, name := range r.Schemes {
+			if sc := SchemeByName(g.d, name); sc != nil && sc.Kind == "basic" {
+				authorizationTaken = true // Basic credentials own the Authorization header
+			}
+		}
+	}
+	seen := map[string]bool{}
+	for _, r := range EffectiveSecurity(g.d, s, meth) {
+		for _, name := range r.Schemes {
+			if seen[name] {
+				continue
+			}
+			seen[name] = true
+			sc := SchemeByName(g.d, name)
+			add := func(attr, kind string) string {
+				for have[norm(attr)] {
+					attr += "x"
+				}
+				have[norm(attr)] = true
+				obj.Fields = append(obj.Fields, &m.Field{Name: attr, Attr: m.Prim(m.String), Required: rapid.IntRange(0, 4).Draw(t, "credreq") != 0})
+				meth.Creds = append(meth.Creds, m.Cred{Scheme: name, Kind: kind, Attr: attr})
+				return attr
+			}
+			switch sc.Kind {
+			case "basic":
+				add("user", "username")
+				add("pass", "password")
+				authorizationTaken = true
+			case "apikey":
+				a := add("key_"+norm(name), "apikey")
+				if rapid.Bool().Draw(t, "keyinquery") {
+					h.Query = append(h.Query, m.Mapping{Attr: a, Wire: "k-" + norm(name)})
+					g.feat("apikey-in-query")
+				} else {
+					h.Headers = append(h.Headers, m.Mapping{Attr: a, Wire: "X-Key-" + norm(name)})
+					g.feat("apikey-in-header")
+				}
+			case "jwt", "oauth2":
+				kind := "token"
+				if sc.Kind == "oauth2" {
+					kind = "accesstoken"
+				}
+				a := add("tok_"+norm(name), kind)
+				if !authorizationTaken && rapid.Bool().Draw(t, "implicitauth") {
+					// unmapped: goa puts it in the Authorization header
+					authorizationTaken = true
+					h.Headers = append(h.Headers, m.Mapping{Attr: a, Wire: "Authorization"})
+					meth.ImplicitAuth = append(meth.ImplicitAuth, a)
+					g.feat("implicit-authorization")
+				} else if rapid.Bool().Draw(t, "tokeninquery") {
+					h.Query = append(h.Query, m.Mapping{Attr: a, Wire: "t-" + norm(name)})
+				} else {
+					h.Headers = append(h.Headers, m.Mapping{Attr: a, Wire: "X-Tok-" + norm(name)})
+				}
+			}
+		}
+	}
 }
